@@ -95,6 +95,98 @@ static void * role(void * a_) {
   return plain_user(a);
 }
 
+
+/* ---- multi-item mailbox: status 1 = "not empty".  Producers take the plain lock, push and mark 1 (often
+   while the status already is 1); a consumer waits for 1, pops and marks 1 again if items remain, 0 otherwise.
+   Several consumers may sleep for the same status; every mark_and_signal(1) has to let one of them proceed. */
+typedef struct {
+  myth_felock_t fe;
+  _Atomic int occ;
+  long * q; long head, tail, cap;
+  int P, C, per;
+  _Atomic int * got;
+} bag_t;
+static bag_t g_bag;
+static _Atomic long g_bag_items, g_marks_unchanged, g_bag_max_len;
+
+static void * bag_producer(hkm_targ_t * a) {
+  bag_t * b = &g_bag;
+  hk_rng_t r; hk_rng_seed(&r, a->rseed, 44);
+  int i;
+  for (i = 0; i < b->per; i++) {
+    long id = (long)a->idx * b->per + i;
+    myth_felock_lock(&b->fe);
+    int o = atomic_fetch_add(&b->occ, 1);
+    HK_CHECK(o == 0, "felock:not-exclusive", "%d other holder(s) under the full/empty lock", o);
+    int st = myth_felock_status(&b->fe);
+    HK_CHECK((st == 1) == (b->tail > b->head), "felock:status-slot-mismatch", "status %d but %ld items queued", st, b->tail - b->head);
+    b->q[b->tail++ % b->cap] = id;
+    if (b->tail - b->head > atomic_load(&g_bag_max_len)) atomic_store(&g_bag_max_len, b->tail - b->head);
+    if (st == 1) atomic_fetch_add(&g_marks_unchanged, 1);
+    atomic_fetch_sub(&b->occ, 1);
+    myth_felock_mark_and_signal(&b->fe, 1);
+    hkm_jitter(&r, 300);
+  }
+  return 0;
+}
+static void * bag_consumer(hkm_targ_t * a) {
+  bag_t * b = &g_bag;
+  hk_rng_t r; hk_rng_seed(&r, a->rseed, 45);
+  long n = (long)(intptr_t)a->user, i;
+  for (i = 0; i < n; i++) {
+    int rc = myth_felock_wait_and_lock(&b->fe, 1);
+    int o = atomic_fetch_add(&b->occ, 1);
+    HK_CHECK(o == 0, "felock:not-exclusive", "%d other holder(s) under the full/empty lock", o);
+    HK_CHECK(rc == 0, "felock:rc", "wait_and_lock returned %d", rc);
+    int st = myth_felock_status(&b->fe);
+    HK_CHECK(st == 1, "felock:wrong-status", "wait_and_lock(1) returned with status %d", st);
+    HK_CHECK(b->tail > b->head, "felock:item-lost", "consumer found an empty queue reported non-empty");
+    long id = b->q[b->head++ % b->cap];
+    int more = b->tail > b->head;
+    if (more) atomic_fetch_add(&g_marks_unchanged, 1);
+    atomic_fetch_sub(&b->occ, 1);
+    myth_felock_mark_and_signal(&b->fe, more ? 1 : 0);
+    int g = atomic_fetch_add(&b->got[id], 1);
+    HK_CHECK(g == 0, "felock:item-consumed-twice", "item %ld consumed %d times", id, g + 1);
+    atomic_fetch_add(&g_bag_items, 1);
+    hkm_jitter(&r, 500);
+  }
+  return 0;
+}
+static void * bag_role(void * a_) {
+  hkm_targ_t * a = (hkm_targ_t *)a_;
+  return a->idx < g_bag.P ? bag_producer(a) : bag_consumer(a);
+}
+static void bag_program(hk_rng_t * r, int sample) {
+  bag_t * b = &g_bag;
+  myth_felock_init(&b->fe, 0);
+  atomic_store(&b->occ, 0);
+  b->P = 1 + (int)hk_below(r, 6); b->C = 2 + (int)hk_below(r, 7);
+  b->per = 30 + (int)hk_below(r, 300);
+  long total = (long)b->P * b->per;
+  b->cap = total + 1; b->head = b->tail = 0;
+  b->q = (long *)calloc((size_t)b->cap, sizeof(long));
+  b->got = (_Atomic int *)calloc((size_t)total, sizeof(_Atomic int));
+  int n = b->P + b->C, i;
+  hkm_targ_t * args = (hkm_targ_t *)calloc((size_t)n, sizeof(hkm_targ_t));
+  /* consumers first in creation order half of the time, so that several of them are asleep before anything is produced */
+  for (i = 0; i < n; i++) {
+    args[i].idx = i; args[i].rseed = hk_rand(r);
+    if (i >= b->P) { int ci = i - b->P; long share = total / b->C + (ci < total % b->C ? 1 : 0); args[i].user = (void *)(intptr_t)share; }
+  }
+  if (hk_below(r, 2)) {
+    hkm_targ_t * rev = (hkm_targ_t *)calloc((size_t)n, sizeof(hkm_targ_t));
+    for (i = 0; i < n; i++) rev[i] = args[n - 1 - i];
+    hkm_run_threads(n, bag_role, rev, 0);
+    free(rev);
+  } else hkm_run_threads(n, bag_role, args, 0);
+  for (i = 0; i < total; i++) HK_CHECK(atomic_load(&b->got[i]) == 1, "felock:item-lost", "item %d consumed %d times", i, atomic_load(&b->got[i]));
+  HK_CHECK(b->head == b->tail && myth_felock_status(&b->fe) == 0, "felock:item-lost", "queue not empty (or status not 0) at the end");
+  myth_felock_destroy(&b->fe);
+  free(b->q); free((void *)b->got); free(args);
+  if (sample) hk_sample("multi-item mailbox: %d producers x %d items (plain lock + mark 1), %d consumers (wait for 1, mark 1 while items remain)", b->P, b->per, b->C);
+}
+
 int main(int argc, char ** argv) {
   hk_init(argc, argv);
   uint64_t seed = hk_seed();
@@ -103,6 +195,7 @@ int main(int argc, char ** argv) {
   int p;
   for (p = 0; p < progs; p++) {
     hk_rng_t r; hk_rng_seed(&r, seed, (uint64_t)p);
+    if (hk_below(&r, 3) == 0) { bag_program(&r, p < 4); continue; }
     box_t * b = &g_box;
     myth_felock_init(&b->fe, 0);
     atomic_store(&b->occ, 0);
@@ -127,6 +220,9 @@ int main(int argc, char ** argv) {
   }
   hk_report("programs", progs);
   hk_report("items", atomic_load(&g_items));
+  hk_report("multi_item_mailbox_items", atomic_load(&g_bag_items));
+  hk_report("marks_that_left_the_status_unchanged", atomic_load(&g_marks_unchanged));
+  hk_report("longest_multi_item_queue", atomic_load(&g_bag_max_len));
   hk_report("plain_sections", atomic_load(&g_plain));
   hk_report("workers", myth_get_num_workers());
   return hk_finish();
